@@ -33,6 +33,11 @@ func (g *Gen) run() {
 	}
 	g.classifyAllocs()
 	g.findLoops()
+	if g.spec != nil {
+		for _, fc := range g.spec.FieldCover {
+			g.fieldCover(fc)
+		}
+	}
 
 	st := &State{reach: "true", locals: map[*ssa.Alloc]Val{}, heap: map[string]string{}, ghosts: map[string]Val{}, pend: map[string]int{}}
 	g.declare("alloc0", "Int")
@@ -1721,4 +1726,106 @@ func (g *Gen) callHasFrameNothing(ci ssa.CallInstruction) bool {
 		}
 	}
 	return false
+}
+
+// fieldCover: class D (syntactic): every field of the struct is read from the parameter / written in
+// values of the type somewhere in the function body. The field list comes from go/types.
+func (g *Gen) fieldCover(fc *FieldCoverSpec) {
+	var stt *types.Struct
+	var named types.Type
+	isBase := func(v ssa.Value) bool { return false }
+	if fc.Writes {
+		if obj := g.fn.Pkg.Pkg.Scope().Lookup(fc.Target); obj != nil {
+			named = obj.Type()
+		} else if t := g.W.lookupType(fc.Target, g.fn.Pkg.Pkg); t != nil {
+			named = t
+		}
+		if named == nil {
+			g.errorf("writes_all: unknown type %s", fc.Target)
+			return
+		}
+		stt, _ = named.Underlying().(*types.Struct)
+	} else {
+		for _, p := range g.fn.Params {
+			if p.Name() == fc.Target {
+				t := p.Type()
+				if pt, ok := t.Underlying().(*types.Pointer); ok {
+					t = pt.Elem()
+				}
+				named = t
+				stt, _ = t.Underlying().(*types.Struct)
+				param := p
+				isBase = func(v ssa.Value) bool {
+					for {
+						switch x := v.(type) {
+						case *ssa.Parameter:
+							return x == param
+						case *ssa.UnOp:
+							v = x.X
+						case *ssa.Alloc:
+							return x.Comment == param.Name()
+						default:
+							return false
+						}
+					}
+				}
+			}
+		}
+	}
+	if stt == nil {
+		g.errorf("%s: %s is not a struct", map[bool]string{true: "writes_all", false: "reads_all"}[fc.Writes], fc.Target)
+		return
+	}
+	covered := map[int]bool{}
+	for _, b := range g.fn.Blocks {
+		for _, in := range b.Instrs {
+			switch x := in.(type) {
+			case *ssa.FieldAddr:
+				bt := x.X.Type().Underlying().(*types.Pointer).Elem()
+				if !types.Identical(bt, named) {
+					continue
+				}
+				if fc.Writes {
+					// counts if some store goes through this address
+					if refs := x.Referrers(); refs != nil {
+						for _, r := range *refs {
+							if st, ok := r.(*ssa.Store); ok && st.Addr == x {
+								covered[x.Field] = true
+							}
+						}
+					}
+				} else if isBase(x.X) {
+					covered[x.Field] = true
+				}
+			case *ssa.Field:
+				if !fc.Writes && types.Identical(x.X.Type(), named) && isBase(x.X) {
+					covered[x.Field] = true
+				}
+			}
+		}
+	}
+	g.curPos = g.fn.Pos()
+	used := map[string]bool{}
+	kind := "reads"
+	if fc.Writes {
+		kind = "writes"
+	}
+	for i := 0; i < stt.NumFields(); i++ {
+		name := stt.Field(i).Name()
+		if reason, ok := fc.Except[name]; ok {
+			used[name] = true
+			g.note(fmt.Sprintf("%s_all %s in %s: field %s excepted (%s)", kind, fc.Target, g.key, name, reason))
+			continue
+		}
+		goal := "false"
+		if covered[i] {
+			goal = "true"
+		}
+		g.oblige(fmt.Sprintf("%s.%s.%s", kind, fc.Target, name), "D", fmt.Sprintf("field %s of %s is %s by this function (syntactic completeness)", name, fc.Target, map[bool]string{true: "written", false: "read"}[fc.Writes]), "true", goal, false)
+	}
+	for name := range fc.Except {
+		if !used[name] && name != "" {
+			g.errorf("%s_all: excepted field %s does not exist in %s (contract drift)", kind, name, fc.Target)
+		}
+	}
 }
